@@ -358,6 +358,13 @@ def coverage_loops(idx, A):
             if v2 and isinstance(it.elt, ast.Name) and it.elt.id == v2:
                 mode = "values"
                 filt = (g.ifs, v2)
+
+                def _unfinished_only(c):
+                    # `not <var>.<finished flag>`: leaves out only commands with nothing left to start (the flag is never reset)
+                    return isinstance(c, ast.UnaryOp) and isinstance(c.op, ast.Not) and isinstance(c.operand, ast.Attribute) and c.operand.attr == A.flag \
+                        and isinstance(c.operand.value, ast.Name) and c.operand.value.id == v2
+                if g.ifs and all(_unfinished_only(c) for c in g.ifs):
+                    filt = None
         if mode is None:
             continue
         var = _loop_var(tgt, mode)
@@ -372,6 +379,41 @@ def coverage_loops(idx, A):
                 covered |= {m for m, lab in t.succ if lab == "true"}  # already finished: nothing to start
         every = bool(starts) and all(cfg.must_pass_through(b, head, covered) for b in firsts)
         on_all = cfg.must_pass_through(cfg.entry, cfg.exit, {head})
+        if not on_all and filt is None:
+            # the loop may be skipped when a test has just found every command finished: `all(c.<flag> for c in <table>)` true,
+            # or `any(not c.<flag> for c in <table>)` false - nothing is left to start on that edge
+            def _all_finished_edge(t):
+                e = t.ast
+                if not (isinstance(e, ast.Call) and isinstance(e.func, ast.Name) and e.func.id in ("all", "any") and len(e.args) == 1 and isinstance(e.args[0], (ast.GeneratorExp, ast.ListComp))
+                        and len(e.args[0].generators) == 1 and not e.args[0].generators[0].ifs):
+                    return None
+                g = e.args[0].generators[0]
+                m_ = _table_iter(g.iter, sn, attr)
+                v_ = _loop_var(g.target, m_) if m_ else None
+                el = e.args[0].elt
+                neg = False
+                while isinstance(el, ast.UnaryOp) and isinstance(el.op, ast.Not):
+                    neg = not neg
+                    el = el.operand
+                if not (v_ and isinstance(el, ast.Attribute) and el.attr == A.flag and isinstance(el.value, ast.Name) and el.value.id == v_):
+                    return None
+                if e.func.id == "all" and not neg:
+                    return "true"
+                if e.func.id == "any" and neg:
+                    return "false"
+                return None
+            skip = {t: _all_finished_edge(t) for t in cfg.find("test")}
+            seen_, work_ = set(), [cfg.entry]
+            while work_:
+                x_ = work_.pop()
+                if x_ in seen_ or x_ is head:
+                    continue
+                seen_.add(x_)
+                for m_, lab_ in x_.succ:
+                    if skip.get(x_) is not None and lab_ == skip[x_]:
+                        continue
+                    work_.append(m_)
+            on_all = cfg.exit not in seen_
         loops.append({"head": head, "var": var, "filter": filt, "starts": starts, "every": every, "on_all": on_all, "cfg": cfg, "for": head.ast})
     return cfg, loops
 
